@@ -44,6 +44,9 @@ def run(repo, rep):
     rep.clause("C02-v", "address arithmetic of feature maps (functions interpreted): a NHCWB16 coordinate splits the channel into brick c // 16 and lane c % 16 for every element size; the storage shape of a rolling buffer is clipped to the buffer (min with the parameter), never grown")
     rep.clause("C02-w", "a tensor gets the brick format only if every operator around it sees it with the tensor's own shape and no DMA copy touches it: both loops of _avoid_nhcwb16_for_shapes compare with the operator's view (ifm_shapes / ofm_shapes); the memory-only predicate holds for Op.Memcpy")
     rule_nhcwb16_restrictions(repo, rep)
+    rep.clause("C02-x", "the per-format NHWC tables are cut to the tensor's rank from the end (`[-shape_len:]`): a tensor of rank < 4 keeps the channel rounding of its format")
+    rep.clause("C02-y", "a slice read moved into its consumer lands on the operand that read the slice: one operand index per branch of move_splitsliceread_to_consumer")
+    rule_round10_geometry(repo, rep)
     rule_tensor_geometry(repo, rep)
     from . import c06 as _c06u
     from . import c08 as _c08u
@@ -1115,3 +1118,46 @@ def rule_nhcwb16_restrictions(repo, rep, rule="C02-w"):
                 ok = True
     rep.check(ok, rule, gsite, "the predicate is true for an operator of type Op.Memcpy", f"`{str(norm(cmps[0])) if cmps else None}` does not hold for Op.Memcpy: the source / destination of a DMA copy becomes NHCWB16 and the DMA moves the brick "
               "volume (576 bytes) into a linear tensor of 368")
+
+
+def rule_round10_geometry(repo, rep):
+    """(x) Tensor.set_format cuts the per-format NHWC tables (storage rounding quantum, brick size) to the rank of the tensor. Shapes of rank
+    < 4 align with the *last* axes (C is always last): every such cut is the trailing slice `[-shape_len:]`. A leading slice drops the
+    16-channel rounding of a rank-3 brick-format tensor, whose storage is then published as H*W*C bytes and addressed in bricks.
+    (y) move_splitsliceread_to_consumer moves the read window of a slice to the consumer's operand that read the slice: in each branch every
+    indexed store on the consumer (`read_offsets[k]`, `read_shapes[k]`, `ifm_shapes[k]`, `indices.ifms[k]`) uses the branch's one operand
+    index k - the branch selected by `cons_op.ifm == op.ofm` index 0, the one selected by `cons_op.ifm2 == op.ofm` index 1."""
+    tm = repo.mod("tensor")
+    fn = tm.func("Tensor.set_format")
+    site = "ethosu/vela/tensor.py:Tensor.set_format"
+    cuts = [st for st in ast.walk(fn) if isinstance(st, ast.Assign) and isinstance(st.value, ast.Call) and call_name(st.value) == "tuple" and st.value.args
+            and isinstance(st.value.args[0], ast.Subscript) and isinstance(st.value.args[0].slice, ast.Slice)]
+    if len(cuts) < 2:
+        raise AnalysisError(f"Tensor.set_format: {len(cuts)} rank cuts found")
+    for st in cuts:
+        sl = st.value.args[0].slice
+        ok = sl.upper is None and sl.step is None and sl.lower is not None and str(norm(sl.lower)) == "-shape_len"
+        rep.check(ok, "C02-x", site, f"`{str(norm(st))[:90]}` keeps the trailing axes", f"slice `{str(norm(st.value.args[0]))[-24:]}` is not the trailing `[-shape_len:]`: a rank-3 NHCWB16 tensor with C % 16 != 0 loses its "
+                  "channel rounding - allocated and published as H*W*C bytes, addressed in 16-channel bricks")
+    gm = repo.mod("graph_optimiser_util")
+    g = gm.func("move_splitsliceread_to_consumer")
+    gsite = "ethosu/vela/graph_optimiser_util.py:move_splitsliceread_to_consumer"
+    branches = []
+    for st in g.body:
+        cur = st
+        while isinstance(cur, ast.If):
+            branches.append((str(norm(cur.test)), cur.body))
+            cur = cur.orelse[0] if len(cur.orelse) == 1 and isinstance(cur.orelse[0], ast.If) else None
+    branches = [(t, b) for t, b in branches if ".ifm" in t and "== op.ofm" in t]
+    if len(branches) != 2:
+        raise AnalysisError(f"move_splitsliceread_to_consumer: {len(branches)} operand branches found")
+    for t, body in branches:
+        want = 1 if ".ifm2 == op.ofm" in t else 0
+        idx = []
+        for st in body:
+            for x in ast.walk(st):
+                if isinstance(x, ast.Subscript) and isinstance(x.slice, ast.Constant) and isinstance(x.slice.value, int) and str(norm(x.value)).startswith("cons_op."):
+                    idx.append((str(norm(x.value)), x.slice.value))
+        wrong = [f"{nm}[{k}]" for nm, k in idx if k != want]
+        rep.check(bool(idx) and not wrong, "C02-y", gsite, f"branch `{t[:60]}` stores the read window and shape at operand index {want} ({len(idx)} indexed uses)",
+                  f"{wrong} in the branch of operand {want}: the other operand of the consumer gets the (larger) shape of the slice source and is read with its strides - about twice its storage")
